@@ -19,6 +19,8 @@ CONSTANTS Strict09,
 VARIABLES hist, blob
 tvars == <<obj, l, hist, blob>>
 
+\* sketches above this lg_k get the sparse ghost (Hll.tla: big)
+DenseMaxLgK == 16
 Chk9(name, c) == IF ~Strict09 THEN TRUE ELSE Chk(name, c)
 ChkS(name, c) == IF c THEN TRUE ELSE Chk(SkPrefix \o name, c)
 
@@ -30,8 +32,11 @@ HAppend(hs, c) == IF Len(hs.cur) = 63 THEN [done |-> Append(hs.done, Append(hs.c
 
 Class(m) == IF m = HLL THEN 1 ELSE 0
 \* two live sketches whose contract states say that they hold the same logical content in the same kind of representation
+\* (sparse ghosts: equal coupon sets - sufficient for equal registers and cheap)
 SameState(a, b) == /\ obj[a].lgK = obj[b].lgK /\ Class(obj[a].mode) = Class(obj[b].mode)
-                   /\ Content(obj[a]) = Content(obj[b]) /\ obj[a].empty = obj[b].empty
+                   /\ obj[a].big = obj[b].big
+                   /\ (IF obj[a].big THEN obj[a].fed = obj[b].fed ELSE Content(obj[a]) = Content(obj[b]))
+                   /\ obj[a].empty = obj[b].empty
 \* ... and were fed in the same order, starting from the same kind of representation
 SameOrder(a, b) == SameState(a, b) /\ hist[a] = hist[b] /\ obj[a].full = obj[b].full
 
@@ -54,8 +59,11 @@ ProjOK(r, o) ==
   /\ ChkS("copy-mode", ModeOK(o, r.cmode))
   /\ ChkS("empty", r.empty = o.empty)
   /\ IF r.cmode = HLL
-     THEN ChkS("registers", /\ Len(r.regs) = 2^o.lgK
-                           /\ \A s \in DOMAIN o.top : r.regs[s + 1] = o.top[s])
+     THEN IF Has(r, "nz")      \* sparse observation (lg_k > 16): the non-zero registers as <<slot, value>> pairs
+          THEN ChkS("registers", /\ o.big /\ Len(r.nz) = Cardinality(ToSet(r.nz))
+                                 /\ PairsMatch(ToSet(r.nz), o.fed, o.lgK))
+          ELSE ChkS("registers", /\ ~o.big /\ Len(r.regs) = 2^o.lgK
+                                 /\ \A s \in DOMAIN o.top : r.regs[s + 1] = o.top[s])
      ELSE /\ ChkS("coupons", ToSet(r.coup) = o.fed)
           /\ ChkS("no-duplicate-coupons", Len(r.coup) = Cardinality(o.fed) /\ r.cnt = Len(r.coup))
   /\ BoundsOK(r, o)
@@ -67,14 +75,14 @@ PairOK(ra, rb) ==
 
 TBegin == IsEvent("Begin") /\ obj' = <<>> /\ hist' = <<>> /\ blob' = <<>>
 TNew == IsEvent("New") /\ LET e == Log[l] IN
-          /\ New(e.id, e.lgk, e.type, e.full, e.mode)
+          /\ New(e.id, e.lgk, e.type, e.full, e.mode, e.lgk > DenseMaxLgK)
           /\ ChkS("empty", e.empty)
           /\ hist' = (e.id :> EmptyHist) @@ hist /\ UNCHANGED blob
 TUpdate == IsEvent("Update") /\ LET e == Log[l]  c == <<e.c[1], e.c[2]>>  ids == ToSet(e.ids) IN
           /\ UpdateAll(e.ids, c, e.m)
           /\ \A n \in DOMAIN e.ids : LET o == obj'[e.ids[n]] IN
                /\ ChkS("empty", e.em[n] = o.empty)
-               /\ ChkS("slot-value", (e.sv[n] >= 0 => e.sv[n] = o.top[SlotOf(c, o.lgK)]) /\ (o.mode = HLL => e.sv[n] >= 0))
+               /\ ChkS("slot-value", (e.sv[n] >= 0 => e.sv[n] = SlotVal(o, SlotOf(c, o.lgK))) /\ ((o.mode = HLL /\ ~o.big) => e.sv[n] >= 0))
           /\ hist' = [j \in DOMAIN hist |-> IF j \in ids THEN HAppend(hist[j], c) ELSE hist[j]]
           /\ UNCHANGED blob
 TFeed == IsEvent("Feed") /\ LET e == Log[l] IN
@@ -131,5 +139,5 @@ SkNext == TNew \/ TUpdate \/ TFeed \/ TUpdateIgnored \/ TObs \/ TConvert \/ TCop
 TNext == TBegin \/ SkNext
 TSpec == TInit /\ [][TNext]_tvars
 \* cheap state invariant for validation runs (the full Inv recomputes SlotMax and is model-checked in MC_Hll instead)
-TInv == \A i \in DOMAIN obj : obj[i].mode = HLL => obj[i].fed = {}
+TInv == \A i \in DOMAIN obj : (obj[i].mode = HLL /\ ~obj[i].big) => obj[i].fed = {}
 ====
